@@ -515,7 +515,9 @@ theorem hregister_inv (P : HReg → Prop) (h0 : P HReg.empty)
     unfold hRegEntry
     split
     · exact hatt _ _ _ _ _ (hframe r1 _ rfl rfl hr1)
-    · exact hatt _ _ _ _ _ hr1
+    · split
+      · exact hatt _ _ _ _ _ hr1
+      · exact hr1
   exact hframe (cd.entries.foldl (hRegEntry r.nclasses cd.parents) r) (hRegClass r cd) rfl rfl hfold
 
 theorem hregister_InvA (h : HHistory) : HInvA (hRegister h) :=
